@@ -4,6 +4,7 @@
 -/
 import DV.Model.NodeLoop
 import DV.Model.NodeInfo
+import DV.Model.Message
 
 namespace DV.NodeSim
 open DV DV.Node
@@ -13,8 +14,28 @@ def cmdOf (s : String) : Nat :=
   | "CE" => 257 | "DW" => 280 | "DP" => 282 | "CC" => 272 | "AC" => 271 | "UN" => 999 | "MO" => 8388733
   | x => x.toNat?.getD 0
 
+def utf8 (b : Bytes) : String := (String.fromUTF8? (ByteArray.mk b.toArray)).getD ""
+
+/-- `X<hex>`: a message given by its wire bytes. -/
+def parseRaw (hex : String) : AMsg :=
+  match ofHex hex with
+  | none => default
+  | some buf =>
+    match decodeMsgPlain buf with
+    | .error _ => default
+    | .ok (h, avps) =>
+      let get (code : Nat) : Option Bytes := (avps.find? fun a => a.code == code && a.vendor == 0).map (·.payload)
+      let u32 (b : Bytes) : Nat := match nat32 b with | some n => n | none => 0
+      { cmd := h.code, flags := h.flags, app := h.appId, hbh := h.hbh, e2e := h.e2e,
+        oh := (get 264).map utf8, orr := (get 296).map utf8, dr := (get 283).map utf8, sid := (get 263).map utf8,
+        rc := (get 268).map u32, dc := (get 273).map u32,
+        auth := (avps.filter fun a => a.code == 258 && a.vendor == 0).map (fun a => u32 a.payload),
+        acct := (avps.filter fun a => a.code == 259 && a.vendor == 0).map (fun a => u32 a.payload),
+        present := avps.map fun a => a.vendor * 4294967296 + a.code }
+
 /-- `cmd:flags:app:hbh:e2e:k=v,k=v…` -/
 def parseMsg (d : String) : AMsg :=
+  if d.startsWith "X" then parseRaw (d.drop 1).toString else
   match d.splitOn ":" with
   | cmd :: fl :: app :: hbh :: e2e :: rest =>
     let kv := match rest with
